@@ -5,6 +5,7 @@ Imports only the core-Lean model and property-predicate files (no Mathlib), so i
 import FFVerif.Model.Proto
 import FFVerif.Props.C01
 import FFVerif.Props.C02
+import FFVerif.Props.C05
 open FF FF.Proto
 
 def counterByName (n : String) : Option (List Int → List Cyc) :=
@@ -47,6 +48,34 @@ def handle (toks : List String) : Option String :=
     let cs ← parseCycs cs
     let t ← parseTable t
     some (showFail (C02.failing k h cs t))
+  | ["levels", unit, h] => do
+    let h ← parseList h
+    let u ← unit.toNat?
+    some (showList (defaultLevels u h))
+  | ["lc", h, ref, lv] => do
+    let h ← parseList h
+    let ref ← parseInt? ref
+    let lv ← parseList lv
+    let seq := levelCrossingSeq h ref lv
+    some (showList seq ++ " " ++ showIntTable (itable seq))
+  | ["peak", h, ref] => do
+    let h ← parseList h
+    let ref ← parseInt? ref
+    let seq := peakSeq h ref
+    some (showList seq ++ " " ++ showIntTable (itable seq))
+  | ["c05lc", h, ref, lv, seq, t] => do
+    let h ← parseList h
+    let ref ← parseInt? ref
+    let lv ← parseList lv
+    let seq ← parseList seq
+    let t ← parseIntTable t
+    some (showFail (C05.failingLevel h ref lv seq t))
+  | ["c05pk", h, ref, seq, t] => do
+    let h ← parseList h
+    let ref ← parseInt? ref
+    let seq ← parseList seq
+    let t ← parseIntTable t
+    some (showFail (C05.failingPeak h ref seq t))
   | ["c01mat", h, m] => do
     let h ← parseList h
     let m ← parseTriples m
